@@ -191,6 +191,10 @@ def run(shard: dict, ctx) -> None:
                 ctx.sample(case)
 
 
+_rx = None
+_rx_view = None
+
+
 def run_random_case(F, data: bytes, rng, ctx, case) -> None:
     ctx.case(b"r" + data)
     obj = F()
@@ -272,6 +276,49 @@ def run_random_case(F, data: bytes, rng, ctx, case) -> None:
             ctx.count("windows_compared_in_other_containers")
             if got != want:
                 ctx.violation(f"C03:compute_checksum:container:{kind}", f"compute_checksum({kind} of {len(data)} octets, {start}, {length}) = {got!r}, model {want:#06x} (bytes give {F.compute_checksum(data, start, length)!r})", dict(case, start=start, length=length, container=kind))
+    # one long-lived read-only view over a receive buffer that is refilled between the calls (the same view object, other octets)
+    if data:
+        global _rx, _rx_view
+        if _rx is None:
+            _rx = bytearray(512)
+            _rx_view = memoryview(_rx).toreadonly()
+        n = min(len(data), len(_rx))
+        _rx[:n] = data[:n]
+        for st, ln in ((0, n), (0, n), (min(1, n), max(0, n - 1))):
+            try:
+                got = F.compute_checksum(_rx_view, st, ln)
+            except Exception:
+                ctx.count("container_calls_that_raised(not judged)")
+                break
+            ctx.count("windows_compared_in_a_reused_read_only_view")
+            if got != fcs16.fcs(data[st : st + ln]):
+                ctx.violation("C03:compute_checksum:container:reused_read_only_view", f"compute_checksum(read-only view over a refilled buffer, {st}, {ln}) = {got!r}, model {fcs16.fcs(data[st:st + ln]):#06x}", dict(case, start=st, length=ln, container="reused_read_only_view"))
+                break
+    # an object that is duplicated half-way (copy, deepcopy, pickle round trip) and continued: the duplicate carries the same register
+    if len(data) >= 2:
+        import copy
+        import pickle
+
+        cut = rng.randrange(1, len(data))
+        o = F()
+        for b in data[:cut]:
+            o.update(b)
+        for how, dup_fn in (("copy", copy.copy), ("deepcopy", copy.deepcopy), ("pickle", lambda x: pickle.loads(pickle.dumps(x)))):
+            try:
+                dup = dup_fn(o)
+            except Exception:
+                ctx.count("duplication_not_supported(not judged)")
+                continue
+            ctx.count("objects_duplicated_mid_stream")
+            ok = dup.checksum == fcs16.fcs(data[:cut])
+            for b in data[cut:]:
+                dup.update(b)
+            if not ok or dup.checksum != fcs16.fcs(data) or bool(dup.is_good) != fcs16.ends_with_good_fcs(data):
+                ctx.violation(f"C03:duplicated-object:{how}", f"object duplicated with {how} after {cut} of {len(data)} octets of {data.hex()[:60]}: checksum {dup.checksum!r}, model {fcs16.fcs(data):#06x}", dict(case, cut=cut, how=how))
+        for b in data[cut:]:
+            o.update(b)
+        if o.checksum != fcs16.fcs(data):
+            ctx.violation("C03:duplicated-object:original-changed", f"the original object gives {o.checksum!r} after it was duplicated, model {fcs16.fcs(data):#06x}", dict(case, cut=cut))
     # pairs of different windows that a 32-bit digest of the input cannot tell apart, computed one after the other
     if len(data) >= 3:
         from vf.gen import collide
